@@ -16,4 +16,9 @@ TEXT = {
   "note": "Trusts Rust f64 + - * / % as the IEEE reference for the real path. NaN is not fed to comparisons.",
   "technique": "differential monitor against an exact-arithmetic oracle over boundary-value operand tuples",
  },
+ "C18": {
+  "level": "Exploration with every length 0..300 covered in every run: encode through the real words from all input forms (incl. unaligned bit-strings), compare with independent reference encoders (RFC 4648 base32/base64, Crockford base32, Z85 with the crate's tail scheme), decode back, and feed mutated / arbitrary text to the decoders.",
+  "note": "Trusts the harness reference encoders. Invalid-text oracle only demands nil when a character outside alphabet+padding is present.",
+  "technique": "round-trip + reference-encoder differential monitor over all lengths and input forms",
+ },
 }
